@@ -533,6 +533,8 @@ enum Item02 {
     /// calculate_cutoff over a block of lengths
     Cutoff { window: WindowFunction, lo: usize, hi: usize, step: usize },
     Sinc { window: WindowFunction, l: usize, cc: bool, os: usize },
+    /// a user-chosen cutoff far below calculate_cutoff
+    SincCut { window: WindowFunction, l: usize, os: usize, fc: f32 },
     Fft { a: usize, b: usize },
 }
 
@@ -550,6 +552,10 @@ fn items02(tier: Tier) -> Vec<Item02> {
                 lo = hi + 1;
             }
         }
+        // lengths beyond the fitted range (the FFT resamplers use their block length here)
+        if matches!(w, WindowFunction::BlackmanHarris2) || !q {
+            v.push(Item02::Cutoff { window: w, lo: 4096, hi: 16384, step: 12288 });
+        }
         // 71, 100, 509: not multiples of 8, the constructors round the filter length up
         for l in if q { vec![64usize, 71, 256] } else { vec![64usize, 71, 100, 128, 256, 509, 512] } {
             for cc in [true, false] {
@@ -558,6 +564,11 @@ fn items02(tier: Tier) -> Vec<Item02> {
         }
         // tables of a million points and more
         v.push(Item02::Sinc { window: w, l: 512, cc: true, os: 2048 });
+        // cutoffs so low that the main lobe of the sinc is wider than the window
+        if matches!(w, WindowFunction::BlackmanHarris2 | WindowFunction::Hann) || !q {
+            v.push(Item02::SincCut { window: w, l: 64, os: 256, fc: 0.05 });
+            v.push(Item02::SincCut { window: w, l: 128, os: 256, fc: 0.3 });
+        }
         if matches!(w, WindowFunction::BlackmanHarris2) {
             v.push(Item02::Sinc { window: w, l: 64, cc: true, os: 32768 });
         }
@@ -574,7 +585,7 @@ fn items02(tier: Tier) -> Vec<Item02> {
 /// The frequency response of the table of a sinc interpolator with `os` branches, read through
 /// the public kernel with unit impulses. Returns (|H(f)|/|H(0)| on the grid, grid step) for f in
 /// [0, os] (input-Nyquist units).
-fn table_response<T: Flt>(l: usize, os: usize, f_cutoff: f32, window: WindowFunction, grid: usize) -> Vec<f64> {
+fn table_taps<T: Flt>(l: usize, os: usize, f_cutoff: f32, window: WindowFunction) -> Vec<f64> {
     let k = ScalarInterpolator::<T>::new(l, os, f_cutoff, window);
     let mut y = vec![0.0f64; l * os];
     let mut wave: Vec<T> = vec![T::from64(0.0); l + 2];
@@ -586,19 +597,25 @@ fn table_response<T: Flt>(l: usize, os: usize, f_cutoff: f32, window: WindowFunc
         }
         wave[p] = T::from64(0.0);
     }
-    // DTFT at f_j = j*os/grid (Nyquist units of the input rate); sample spacing 1/os
-    let mut h = vec![0.0f64; grid + 1];
-    for (j, hj) in h.iter_mut().enumerate() {
-        let w = PI * (j as f64 * os as f64 / grid as f64) / os as f64;
-        let (mut re, mut im) = (0.0, 0.0);
-        // recurrence-free evaluation (grid is small)
-        for (n, v) in y.iter().enumerate() {
-            let (s, c) = (w * n as f64).sin_cos();
-            re += v * c;
-            im -= v * s;
-        }
-        *hj = (re * re + im * im).sqrt();
+    y
+}
+
+/// |H(f)| of a tap vector with sample spacing 1/os, f in input-Nyquist units.
+fn dtft_at(y: &[f64], os: usize, f: f64) -> f64 {
+    let w = PI * f / os as f64;
+    let (mut re, mut im) = (0.0, 0.0);
+    for (n, v) in y.iter().enumerate() {
+        let (s, c) = (w * n as f64).sin_cos();
+        re += v * c;
+        im -= v * s;
     }
+    (re * re + im * im).sqrt()
+}
+
+fn table_response<T: Flt>(l: usize, os: usize, f_cutoff: f32, window: WindowFunction, grid: usize) -> Vec<f64> {
+    let y = table_taps::<T>(l, os, f_cutoff, window);
+    // DTFT at f_j = j*os/grid (Nyquist units of the input rate); sample spacing 1/os
+    let h: Vec<f64> = (0..=grid).map(|j| dtft_at(&y, os, j as f64 * os as f64 / grid as f64)).collect();
     let h0 = h[0];
     h.iter().map(|x| x / h0).collect()
 }
@@ -646,16 +663,27 @@ fn c02_cutoff<T: Flt>(acc: &mut Acc, window: WindowFunction, l: usize) {
         }
     }
     acc.margin(&format!("cutoff:stopband:{}", window_name(window)), worst / lim, || json!({"point": point, "worst_stopband_dB": -20.0 * worst.log10(), "required_dB": rej_db(window), "at_f": at as f64 * step}));
+    // ... and not earlier: half a transition half-width below Nyquist the response is still above
+    // the rejection figure (a cutoff that is needlessly low gives away passband)
+    if !T::IS_F32 {
+        let y = table_taps::<T>(l8, os, cc, window);
+        let tw = 1.0 - cc as f64;
+        let early = dtft_at(&y, os, 1.0 - 0.5 * tw) / dtft_at(&y, os, 0.0);
+        acc.margin(&format!("cutoff:stopband-not-early:{}", window_name(window)), lim / early, || json!({"point": point, "response_dB_half_a_transition_half_width_below_nyquist": 20.0 * early.log10(), "rejection_dB": -rej_db(window)}));
+        if !(early > lim) {
+            acc.fail("C02", &cfg, "stopband-starts-before-nyquist", format!("filter response at f = {:.5} (half a transition half-width below Nyquist) is already {:.1} dB: with f_cutoff = calculate_cutoff the stopband starts at Nyquist", 1.0 - 0.5 * tw, 20.0 * early.log10()), point.clone(), meta.clone());
+        }
+    }
     acc.outcomes.insert(format!("cutoff:{}:{}", window_name(window), if worst <= lim { "ok" } else { "LEAK" }));
     if !(worst <= lim) {
         acc.fail("C02", &cfg, "stopband-starts-after-nyquist", format!("filter response at f = {:.4} (>= Nyquist) is {:.1} dB, required <= -{} dB", at as f64 * step, 20.0 * worst.log10(), rej_db(window)), point, meta);
     }
 }
 
-fn c02_sinc(acc: &mut Acc, tier: Tier, window: WindowFunction, l: usize, cc: bool, os: usize, journal: Option<&JournalFile>) -> Result<(), String> {
+fn c02_sinc(acc: &mut Acc, tier: Tier, window: WindowFunction, l: usize, cc: bool, os: usize, fc: Option<f32>, journal: Option<&JournalFile>) -> Result<(), String> {
     let q = tier == Tier::Quick;
     let ccv = calculate_cutoff::<f32>(l, window);
-    let f_cutoff = if cc { ccv } else { 0.8 };
+    let f_cutoff = fc.unwrap_or(if cc { ccv } else { 0.8 });
     let ratios: Vec<f64> = if q { vec![0.25, 147.0 / 160.0, 2.5] } else { vec![0.25, 0.7, 147.0 / 160.0, 1.0, 160.0 / 147.0, 2.5, 8.0] };
     // a 32 768-fold sub-filter grid with chunks of 70 000 / 80 000 frames: positions late in a
     // chunk exceed 2^31 sub-filter steps (the fitted window lies at the end of the output)
@@ -712,7 +740,10 @@ fn c02_sinc_unit<T: Flt>(acc: &mut Acc, cfg: &Cfg, window: WindowFunction, l: us
             acc.margin(&format!("stopband:{}{}", window_name(window), tag), level / lim, || json!({"cfg": cfg.short(), "point": point, "level_dB": 20.0 * level.log10(), "required_dB": -req_db}));
             acc.outcomes.insert(format!("{}:{}:stop{}:{}", cfg.kind.name(), window_name(window), tag, if level <= lim { "ok" } else { "LEAK" }));
             if !(level <= lim) {
-                acc.fail("C02", cfg, "aliasing", format!("a tone above the stopband edge comes out at {:.1} dB, required <= -{:.0} dB", 20.0 * level.log10(), req_db), point, meta.clone());
+                let mut m = meta.clone();
+                m["f_cutoff"] = json!(f_cutoff);
+                m["excess_dB"] = json!(20.0 * (level / lim).log10());
+                acc.fail("C02", cfg, "aliasing", format!("a tone above the stopband edge comes out at {:.1} dB, required <= -{:.0} dB", 20.0 * level.log10(), req_db), point, m);
             }
         }
     } else {
@@ -816,13 +847,21 @@ impl Check for C02 {
                 let mut l = lo;
                 while l <= hi {
                     c02_cutoff::<f64>(&mut acc, window, l);
-                    c02_cutoff::<f32>(&mut acc, window, l);
+                    // single precision: the sinc arguments of a table beyond 2048 points lose
+                    // more than the 2^-18 the f32 figures are held to
+                    if l <= 2048 {
+                        c02_cutoff::<f32>(&mut acc, window, l);
+                    }
                     l += step;
                 }
             }
             Item02::Sinc { window, l, cc, os } => {
                 label = format!("sinc stopband {} L{} os{} {}", window_name(window), l, os, if cc { "f_cutoff=calculate_cutoff" } else { "f_cutoff=0.8" });
-                c02_sinc(&mut acc, tier, window, l, cc, os, journal)?;
+                c02_sinc(&mut acc, tier, window, l, cc, os, None, journal)?;
+            }
+            Item02::SincCut { window, l, os, fc } => {
+                label = format!("sinc stopband {} L{} os{} f_cutoff={}", window_name(window), l, os, fc);
+                c02_sinc(&mut acc, tier, window, l, false, os, Some(fc), journal)?;
             }
             Item02::Fft { a, b } => {
                 label = format!("fft stopband {}->{}", a, b);
